@@ -120,6 +120,7 @@ NONASCII = ['é', 'ü', 'ß', 'ñ', 'Ω', 'Ж', '中', '日本', '€', '→', '
             # characters that str.splitlines() treats as line ends but that are not: a line ends at LF, CR LF or CR
             'a\ufeffb', '\ufeff', 'x\u200b\u00a0y', 'a\x0cb', 'a\x0bb', 'a\x1cb', 'a\x1eb', 'a\x85b', 'a\u2028b', 'a\u2029b']
 ESCAPES = ['\\n', '\\t', '\\r', '\\\\', "\\'", '\\"', '\\0', '\\x41', '\\x7f', '\\xe9', '\\u00e9', '\\u4e2d',
+           '\\N{BULLET}', '\\N{UNKNOWN NAME}', '\\U0001F600', '\\U00110000', '\\N{latin small letter e with acute}', '\\N{}',
            '\\q', '\\%', '\\é', '\\€', '\\日', '\\😀', 'C:\\Windows\\€uro', '\\ ']
 
 
@@ -150,11 +151,14 @@ def judge_string(asm, acc, text, indent=''):
     acc['n'] += 1
     line = indent + 'string ' + text
     case = {'kind': 'str', 'text': text, 'indent': indent}
+    segs = None
     try:
         exp = escapes.process(text).encode('utf-8')
     except ValueError:
-        acc['ctr']['string_outside_model'] += 1
-        return
+        segs = escapes.segments(text)
+        if segs is None:
+            acc['ctr']['string_outside_model'] += 1
+            return
     eol = ['\n', '\r\n', '\n', ''][len(text) % 4]
     o = monitors.observe(asm, 'bytes 1' + (eol or '\n') + line + eol, tap=False)
     if o.ok:
@@ -164,6 +168,23 @@ def judge_string(asm, acc, text, indent=''):
     acc['ctr']['string_cases'] += 1
     if any(ord(ch) > 127 for ch in text):
         acc['ctr']['nonascii_strings'] += 1
+    if segs is not None:
+        # an escape-shaped sequence that names no character sits in the text: whatever becomes of *it* (or of the whole line), the
+        # escapes around it are processed as always
+        acc['ctr']['strings_with_an_unnamed_character_escape'] += 1
+        if o.ok:
+            enc = [sg.encode('utf-8') for sg in segs]
+            pos, okay = 0, o.out.startswith(enc[0]) and o.out.endswith(enc[-1])
+            for e in enc:
+                k = o.out.find(e, pos)
+                if k < 0:
+                    okay = False
+                    break
+                pos = k + len(e)
+            if not okay:
+                core.add_viol(acc, 'string line %r emitted %s: the text pieces around the escape that names no character are %r after escape processing' % (
+                    line, o.out.hex(), segs), case, {})
+        return
     if not o.ok:
         core.add_viol(acc, 'string line %r is refused: %s: %s' % (line, o.exc['type'], o.exc['msg']), case, {})
     elif o.out != exp:
